@@ -1,5 +1,61 @@
 use crate::{flag, hex, opt_str, unhex};
+use std::cmp::Ordering;
+use std::str::FromStr;
+use zerv::cli::check::{run_check_command, CheckArgs};
 use zerv::utils::sanitize::Sanitizer;
+use zerv::vcs::git_utils::GitUtils;
+use zerv::version::semver::{BuildMetadata, PreReleaseIdentifier};
+use zerv::version::{SemVer, VersionObject};
+
+fn ord(o: Ordering) -> &'static str {
+    match o {
+        Ordering::Less => "LT",
+        Ordering::Equal => "EQ",
+        Ordering::Greater => "GT",
+    }
+}
+
+fn sv_ids_pre(v: &Option<Vec<PreReleaseIdentifier>>) -> String {
+    match v {
+        None => "~".into(),
+        Some(l) if l.is_empty() => "-".into(),
+        Some(l) => l
+            .iter()
+            .map(|i| match i {
+                PreReleaseIdentifier::Str(s) => format!("s:{}", hex(s)),
+                PreReleaseIdentifier::UInt(n) => format!("u:{n}"),
+            })
+            .collect::<Vec<_>>()
+            .join(","),
+    }
+}
+
+fn sv_ids_build(v: &Option<Vec<BuildMetadata>>) -> String {
+    match v {
+        None => "~".into(),
+        Some(l) if l.is_empty() => "-".into(),
+        Some(l) => l
+            .iter()
+            .map(|i| match i {
+                BuildMetadata::Str(s) => format!("s:{}", hex(s)),
+                BuildMetadata::UInt(n) => format!("u:{n}"),
+            })
+            .collect::<Vec<_>>()
+            .join(","),
+    }
+}
+
+pub fn semver_fields(v: &SemVer) -> String {
+    format!(
+        "{} {} {} {} {} {}",
+        hex(&v.to_string()),
+        v.major,
+        v.minor,
+        v.patch,
+        sv_ids_pre(&v.pre_release),
+        sv_ids_build(&v.build_metadata)
+    )
+}
 
 pub fn dispatch(f: &[&str]) -> Result<String, String> {
     match f[0] {
@@ -24,6 +80,50 @@ pub fn dispatch(f: &[&str]) -> Result<String, String> {
                 o => return Err(format!("preset {o}")),
             };
             Ok(format!("OK {}", hex(&z.sanitize(&s))))
+        }
+        // SVP <s>  : SemVer::from_str + Display + fields
+        "SVP" => {
+            let s = unhex(f[1])?;
+            match SemVer::from_str(&s) {
+                Ok(v) => Ok(format!("OK {}", semver_fields(&v))),
+                Err(_) => Ok("ERR".into()),
+            }
+        }
+        // SVC <s1> <s2> : Ord::cmp and ==
+        "SVC" => {
+            let a = SemVer::from_str(&unhex(f[1])?);
+            let b = SemVer::from_str(&unhex(f[2])?);
+            match (a, b) {
+                (Ok(a), Ok(b)) => Ok(format!("{} {}", ord(a.cmp(&b)), if a == b { 1 } else { 0 })),
+                _ => Ok("ERR".into()),
+            }
+        }
+        // VMAX <fmt> n <s>... : GitUtils::find_max_version_tag over tags parsed with <fmt>
+        "VMAX" => {
+            let fmt = f[1];
+            let n: usize = f[2].parse().map_err(|_| "n")?;
+            let mut tags = Vec::new();
+            for i in 0..n {
+                let t = unhex(f[3 + i])?;
+                match VersionObject::parse_with_format(&t, fmt) {
+                    Ok(v) => tags.push((t, v)),
+                    Err(_) => return Ok("ERR".into()),
+                }
+            }
+            match GitUtils::find_max_version_tag(&tags) {
+                Ok(Some(t)) => Ok(format!("OK {}", hex(&t))),
+                Ok(None) => Ok("NONE".into()),
+                Err(_) => Ok("ERR".into()),
+            }
+        }
+        // CHK <fmt?> <s> : run_check_command
+        "CHK" => {
+            let fmt = if f[1] == "~" { None } else { Some(f[1].to_string()) };
+            let s = unhex(f[2])?;
+            match run_check_command(CheckArgs { version: s, format: fmt }) {
+                Ok(t) => Ok(format!("OK {}", hex(&t))),
+                Err(_) => Ok("ERR".into()),
+            }
         }
         o => Err(format!("unknown op {o}")),
     }
